@@ -326,6 +326,8 @@ def check(pid, tier):
     t0 = time.time()
     seed = int(os.environ.get("VERIF_SEED", "1"))
     cfg = load_cfg(pid)
+    ENV["VERIF_PROP"] = pid          # families that serve several properties select their sub-stream by it
+    ENV["VERIF_TIER"] = tier
     wdir = os.path.join(WORK, pid)
     os.makedirs(wdir, exist_ok=True)
     thorough = tier == "thorough"
